@@ -1,7 +1,11 @@
 /-
 Frame locality ("isolation"): handling a frame only touches the channel the frame is about and the
-channels carried inside a DATA item; nothing that happens on one channel (a failing callback, a remote
-error) brings the connection down.  C07 (isolation), C18 (channels travel inside items).
+channels carried inside a DATA item; while the connection is up, nothing that happens on one channel
+(a failing callback, a remote error) brings it down.  C07 (isolation), C18 (channels travel inside items).
+
+The one exception (as in the code): a callback that fails when the IO has already been closed cannot
+write its CLOSE_ERROR; the OSError escapes the handler and ends the receiver thread
+(`C07_failing_callback_io_closed`).  Hence the hypotheses `x.ioOpen = true` below.
 -/
 import ExecnetVerif.Proofs.Net.ClosePlumbing
 namespace ExecnetVerif.Net
@@ -21,14 +25,14 @@ def Frame.carried : Frame → List Nat
   | .data _ v => v.chans
   | _ => []
 
-/-- C07: handling a frame for channel `id` leaves every other channel (that is not carried inside the
-item) exactly as it was -/
+/-- C07: while the IO is open, handling a frame for channel `id` leaves every other channel (that is not
+carried inside the item) exactly as it was -/
 theorem C07_isolation (fails : Item → Bool) (x : SideSt) (w : Bool) (f : Frame) (id : Nat) :
-    f.target = some id → ∀ j, j ≠ id → j ∉ f.carried →
+    x.ioOpen = true → f.target = some id → ∀ j, j ≠ id → j ∉ f.carried →
       (handle fails x w f).chans j = x.chans j ∧ (handle fails x w f).cbs j = x.cbs j ∧
       (handle fails x w f).cbLog j = x.cbLog j ∧ (handle fails x w f).got j = x.got j ∧
       (handle fails x w f).kept j = x.kept j := by
-  intro ht j hj hc
+  intro hio ht j hj hc
   cases f with
   | data i v =>
     simp only [Frame.target, Option.some.injEq] at ht; subst ht
@@ -36,7 +40,7 @@ theorem C07_isolation (fails : Item → Bool) (x : SideSt) (w : Bool) (f : Frame
     apply handle_data_cases fails x w i v
       (fun y => y.chans j = x.chans j ∧ y.cbs j = x.cbs j ∧ y.cbLog j = x.cbLog j ∧ y.got j = x.got j ∧
         y.kept j = x.kept j)
-    · intro w' _ _
+    · intro w' _ _ _
       refine ⟨?_, ?_, ?_, ?_, ?_⟩
       · rw [localClose_chans_ne _ _ _ _ hj, failOut_chans, cbAccept_chans,
           registerAll_chans_not_mem _ _ hc]; rfl
@@ -44,6 +48,8 @@ theorem C07_isolation (fails : Item → Bool) (x : SideSt) (w : Bool) (f : Frame
       · rw [localClose_cbLog_ne _ _ _ _ hj]; simp [cbAccept, upd_ne, hj, dataPre]
       · simp [cbAccept, upd_ne, hj, dataPre]
       · simp [cbAccept, upd_ne, hj, dataPre]
+    · intro w' _ _ hio'
+      rw [hio] at hio'; cases hio'
     · intro w' _ _
       refine ⟨?_, ?_, ?_, ?_, ?_⟩
       · rw [cbAccept_chans, registerAll_chans_not_mem _ _ hc]; rfl
@@ -96,12 +102,25 @@ theorem C07_isolation (fails : Item → Bool) (x : SideSt) (w : Bool) (f : Frame
     · exact ⟨rfl, rfl, rfl, rfl, rfl⟩
   | terminate => simp [Frame.target] at ht
 
-/-- C07: no frame except GATEWAY_TERMINATE changes the state of the connection -/
+/-- C07: while the IO is open, no frame except GATEWAY_TERMINATE changes the state of the connection -/
 theorem C07_connection_stays (fails : Item → Bool) (x : SideSt) (w : Bool) (f : Frame) :
-    f ≠ .terminate →
+    f ≠ .terminate → x.ioOpen = true →
       (handle fails x w f).finished = x.finished ∧ (handle fails x w f).ioOpen = x.ioOpen ∧
       (handle fails x w f).gwerr = x.gwerr :=
-  fun hf => ⟨handle_finished fails x w f hf, handle_ioOpen fails x w f hf, handle_gwerr fails x w f hf⟩
+  fun hf hio =>
+    have he := endsReceiver_false_of_ioOpen fails x hf hio
+    ⟨handle_finished fails x w f he, handle_ioOpen fails x w f he, handle_gwerr fails x w f⟩
+
+/-- the one exception: a callback that fails after the IO was closed cannot write its CLOSE_ERROR; the
+receiver thread ends (without a remembered connection error) and nothing is written -/
+theorem C07_failing_callback_io_closed (fails : Item → Bool) (x : SideSt) (wk : Bool) (id : Nat) (v : Item)
+    (w : Bool) : x.cbs id = some w → fails v = true → x.ioOpen = false →
+      (handle fails x wk (.data id v)).finished = true ∧
+      (handle fails x wk (.data id v)).out = x.out ∧
+      (handle fails x wk (.data id v)).gwerr = x.gwerr := by
+  intro hcb hf hio
+  rw [handle_data_cb fails x wk v hcb]
+  simp [hf, hio]
 
 /-- C07: a failing callback closes its own channel with a CLOSE_ERROR to the peer — nothing else -/
 theorem C07_failing_callback (fails : Item → Bool) (x : SideSt) (wk : Bool) (id : Nat) (v : Item) (w : Bool) :
@@ -115,9 +134,9 @@ theorem C07_failing_callback (fails : Item → Bool) (x : SideSt) (wk : Bool) (i
         ((handle fails x wk (.data id v)).chans id).rerrs = (x.chans id).rerrs ++ [v.val]) := by
   intro hcb hf hio
   rw [handle_data_cb fails x wk v hcb]
-  simp only [hf, if_true]
+  simp only [hf, hio, if_true]
   refine ⟨?_, ?_, ?_, ?_⟩
-  · simp [failOut_out, hio]
+  · simp [failOut_out]
   · simp
   · rw [localClose_chans_same]; split <;> rfl
   · intro hr
@@ -166,10 +185,12 @@ theorem registerAll_registered (x : SideSt) (ids : List Nat)
 /-- C18: when a DATA frame is accepted (by a callback, or into the queue of the registered channel
 object), every channel id carried inside the item has a live, registered channel object afterwards —
 except that the carrying channel itself, if it travels inside its own item, is closed again when the
-callback fails -/
+callback fails.  `hio`: the callback does not fail after the IO was closed (that ends the receiver thread,
+whose epilogue unregisters every channel object; `x.ioOpen = true` suffices) -/
 theorem C18_travel (fails : Item → Bool) (x : SideSt) (wk : Bool) (id : Nat) (v : Item)
     (hx : ∀ j, (x.chans j).registered = true → (x.chans j).created = true ∧ (x.chans j).alive = true)
-    (hacc : x.cbs id ≠ none ∨ ((x.chans id).registered = true ∧ (x.chans id).queue ≠ none)) :
+    (hacc : x.cbs id ≠ none ∨ ((x.chans id).registered = true ∧ (x.chans id).queue ≠ none))
+    (hio : x.cbs id ≠ none → fails v = true → x.ioOpen = true) :
     ∀ c ∈ v.chans,
       ((handle fails x wk (.data id v)).chans c).created = true ∧
       ((handle fails x wk (.data id v)).chans c).alive = true ∧
@@ -181,7 +202,7 @@ theorem C18_travel (fails : Item → Bool) (x : SideSt) (wk : Bool) (id : Nat) (
   apply handle_data_cases fails x wk id v
     (fun y => (y.chans c).created = true ∧ (y.chans c).alive = true ∧
       ((y.chans c).registered = true ∨ (c = id ∧ x.cbs id ≠ none ∧ fails v = true ∧ (y.chans c).closed = true)))
-  · intro w' hcb hf
+  · intro w' hcb hf _
     by_cases hci : c = id
     · subst hci
       have h1 : (failOut (cbAccept x c v) c v.val).chans c = (registerAll (dataPre x c v) v.chans).chans c := by
@@ -190,6 +211,8 @@ theorem C18_travel (fails : Item → Bool) (x : SideSt) (wk : Bool) (id : Nat) (
       simp [hreg.2.2, hreg.1, hreg.2.1, hcb, hf]
     · rw [localClose_chans_ne _ _ _ _ hci, failOut_chans, cbAccept_chans]
       exact ⟨hreg.1, hreg.2.1, Or.inl hreg.2.2⟩
+  · intro w' hcb hf hio'
+    rw [hio (by simp [hcb]) hf] at hio'; cases hio'
   · intro w' _ _
     rw [cbAccept_chans]
     exact ⟨hreg.1, hreg.2.1, Or.inl hreg.2.2⟩
